@@ -94,6 +94,8 @@ def execute(case, sched=None):
         if r.region_shape is None:
             continue
         n_checked += 1
+        # (the dtype of a written block is not judged: cubed legitimately computes e.g. float32 means in
+        #  float64 and lets Zarr cast on write; a *declared* dtype that is wrong shows up as a wrong value in C01)
         if tuple(r.value_shape) != tuple(r.region_shape):
             # a 0-d value into a 0-d region etc. are equal; anything else is a broadcast/truncation
             violations.append(dict(
